@@ -12,6 +12,7 @@ UNIT = dict(
     rules=[("R1",)],
     extra_params=[],
     fns={
+        "FixedTimeout::new": dict(file="tlconfig"),
         "DynamicTimeout::new": dict(file="tlconfig"),
         "DynamicTimeout::clone@Clone": dict(file="tlconfig"),
         "TimeLimiterConfig::clone@Clone": dict(file="tlconfig"),
